@@ -141,6 +141,12 @@ theorem enum_names_legal_distinct (E : Env) (cfg : Cfg) (o : EnumObj) (ms : List
   | outOfFuel => rw [hf] at h; simp [Res.map] at h
   | error => rw [hf] at h; simp [Res.map] at h
 
+/-- non-vacuity: reserved and colliding names in one enum (`mro`, a keyword, two entries that sanitise alike) -/
+example : parseEnum pyEnv {} ⟨some strT, [.str ['m', 'r', 'o'], .str ['i', 'f'], .str ['a', ' '], .str ['a', '-']], []⟩ =
+    .ok ([(['m', 'r', 'o', '_'], .lit ['\'', 'm', 'r', 'o', '\'']), (['i', 'f', '_'], .lit ['\'', 'i', 'f', '\'']),
+          (['a', '_'], .lit ['\'', 'a', ' ', '\'']), (['a', '_', '_', '1'], .lit ['\'', 'a', '-', '\''])], false) := by
+  decide +kernel
+
 /-- the member loop terminates: with a legal prefix `parse_enum` never runs out of fuel -/
 theorem enum_members_terminate (E : Env) (cfg : Cfg) (o : EnumObj) (hp : PrefixOK cfg) (hE : CaseOK E) :
     parseEnum E cfg o ≠ .outOfFuel := by
